@@ -18,8 +18,25 @@ FRAGMENTS = [
     ("c1ccsc1", "a"), ("c1ccoc1", "a"), ("Cc1ccc(F)cc1", "a"), ("CC(c1ccccc1)", "ta"),
     ("C1CCC2(CC1)CCCC2", ""), ("C1CC2CCC1C2", ""), ("C1CCCCC1", "t"), ("C1CCOC1", "t"), ("C1CC1", "s"), ("C1CCC1=O", ""),
     ("C[Si](C)(C)C", ""), ("C[Si](C)C", ""), ("C[N+](C)(C)C", ""), ("CC(=O)[O-]", ""), ("C[N+](=O)[O-]", ""), ("[NH3+]C", "s"),
+    ("S(=O)C", "s"), ("CS(=O)", "s"), ("S(=O)(=O)C", ""), ("CCS(=O)(=O)", ""), ("P(C)C", "s"), ("CP(=O)(C)", ""), ("CSSC", ""), ("OP(=O)(O)C", ""),
     ("[13CH3]C", "s"), ("C[13C](=O)OC", ""), ("[2H]C", "s"), ("CC(C)(C(=O)OC)", "t"), ("CC(C(=O)OC)", "t"), ("C(=O)", "s"), ("CCOCC", "t"),
 ]
+# the same molecule written with another atom order (descriptor atom indices follow the written order, so a cache keyed by the
+# chemistry instead of the text would bond through the wrong atoms)
+_TWINS = [("OCC", "CCO"), ("CC(=O)OC", "COC(C)=O"), ("NC(=O)C", "CC(N)=O"), ("Cc1ccccc1", "c1ccccc1C"), ("CC#N", "N#CC"), ("CCl", "ClC"), ("CS", "SC"),
+          ("OCCCC", "CCCCO"), ("CO", "OC"), ("CN", "NC"), ("CC(C)c1ccccc1", "c1ccccc1C(C)C"), ("CC(F)(F)F", "FC(F)(F)C"), ("CCOCC", "C(C)OCC")]
+_known = {f for f, _ in FRAGMENTS}
+_tags = dict(FRAGMENTS)
+for _a, _b in _TWINS:
+    for _x, _y in ((_a, _b), (_b, _a)):
+        if _x not in _known:
+            FRAGMENTS.append((_x, _tags.get(_y, "").replace("s", "s")))
+            _known.add(_x)
+            _tags[_x] = _tags.get(_y, "")
+TWIN = {}
+for _a, _b in _TWINS:
+    TWIN[_a] = _b
+    TWIN[_b] = _a
 SINGLE_ATOM_ENDS = ["[H]", "F", "Cl", "Br", "O", "N", "C", "S", "I"]
 _BRACKET_CAP = {"[Si]": 4}
 
@@ -162,7 +179,7 @@ def D(sym, id=None, weight=None, bond="", rng=None):
 class Ctx:
     """Random context for one molecule: directed or undirected form, fragment pools."""
 
-    def __init__(self, rng, small=False, typable=False, form=None, ids=None):
+    def __init__(self, rng, small=False, typable=False, form=None, ids=None, respell=False):
         self.rng = rng
         self.form = form or rng.choice(["dir", "dir", "und"])
         tag = "t" if typable else None
@@ -173,6 +190,20 @@ class Ctx:
         self.small = small
         self.typable = typable
         self.base_id = ids if ids is not None else rng.choice([None, None, None, 1, 2, 7, 12, 105])
+        self.used = []  # fragments used so far in this molecule
+        self.respell = respell  # write every fragment that has one in its other spelling (same molecule, other atom order)
+
+    def _pick(self, pool):
+        """a fragment of the pool; sometimes the respelled twin of one already used in this molecule"""
+        r = self.rng
+        smi = r.choice(pool)
+        if r.random() < 0.2:
+            tw = [TWIN[u] for u in self.used if u in TWIN and TWIN[u] in pool]
+            if tw:
+                smi = r.choice(tw)
+        if self.respell and smi in TWIN:
+            smi = TWIN[smi]
+        return smi
 
     def lt(self, id=None, **k):  # the 'incoming' side of a unit
         return D("<" if self.form == "dir" else "$", self._id(id), rng=self.rng, **k)
@@ -188,9 +219,11 @@ class Ctx:
     def unit(self, descs, pool=None, style=None):
         pool = pool or (self.pool3 if len(descs) > 2 else self.pool2)
         for _ in range(50):
-            smi = self.rng.choice(pool)
+            smi = self._pick(pool)
             try:
-                return build_token(self.rng, smi, descs, style or self.rng.choice(["any", "any", "ends"]))
+                t = build_token(self.rng, smi, descs, style or self.rng.choice(["any", "any", "ends"]))
+                self.used.append(smi)
+                return t
             except ValueError:
                 continue
         raise ValueError("no fragment fits")
@@ -206,7 +239,11 @@ class Ctx:
         """prefix / connector / suffix written without descriptors: the library inserts them in front of the
         first and behind the last written atom, so both must have room"""
         pool = [s for s in self.pool1 if _ends_free(s)]
-        return plain_token(self.rng.choice(pool))
+        smi = self.rng.choice(pool)
+        if self.respell and smi in TWIN and _ends_free(TWIN[smi]):
+            smi = TWIN[smi]
+        self.used.append(smi)
+        return plain_token(smi)
 
     def weight(self):
         return self.rng.choice([None, None, 2.0, 0.5, 3.0, 0.25, 10.0, 1.0, 0.0, 2.0])
@@ -476,10 +513,10 @@ def scale_weights(m, factor):
     return m
 
 
-def make_molecule(rng, arch=None, small=False, typable=False, form=None, families=None, mean_units=None, ids=None):
+def make_molecule(rng, arch=None, small=False, typable=False, form=None, families=None, mean_units=None, ids=None, respell=False):
     arch = arch or rng.choice(sorted(ARCHETYPES))
     for _ in range(20):
-        ctx = Ctx(rng, small=small, typable=typable, form=form, ids=ids)
+        ctx = Ctx(rng, small=small, typable=typable, form=form, ids=ids, respell=respell)
         try:
             m = ARCHETYPES[arch](ctx, families, mean_units)
             m.arch = arch
